@@ -134,7 +134,7 @@ theorem ne_connectionFailed (s : Sess) : NE s (s.connectionFailed) := by
   split
   · exact (((ne_setRetry s _).trans (ne_closeConn _)).trans (ne_setSt _ _)).trans (ne_connectionClosed _ _)
   · exact (ne_setRetry s _).trans (ne_setSt _ _)
-  · exact (((ne_closeConn s).trans (ne_setRetry _ _)).trans (ne_setSt _ _)).trans (ne_connectionClosed _ _)
+  · exact ((((ne_closeConn s).trans (ne_setRetry _ _)).trans (ne_setHold _ _)).trans (ne_setSt _ _)).trans (ne_connectionClosed _ _)
   · exact ne_errorClose _
   · exact ne_errorClose _
   · exact NE.refl _
